@@ -237,3 +237,11 @@ Theorem C05_all_of_refuted_when_detached :
     (forall o, In o ops -> is_proc s o = true) /\ agenda s = [] /\ detached s c.
 Proof. exact all_of_refuted_when_detached. Qed.
 Print Assumptions C05_all_of_refuted_when_detached.
+
+(* ---- the model's internal-error result is not reached by _build_value ---- *)
+
+Theorem C05_build_value_never_broken :
+  forall codes X s c cev, reach codes X s -> get_event c s = Some cev -> is_cond cev = true -> out cev <> None ->
+    snd (cond_build c s) = ROk.
+Proof. intros codes X s c cev R. apply (cond_build_ok X s c cev), (reach_cinv _ _ _ R). Qed.
+Print Assumptions C05_build_value_never_broken.
